@@ -183,6 +183,37 @@ def h_concrete_lengths(ctx, kind):
     return [("all-lengths-0..80-roundtrip-and-match-reference (failing: %s)" % bad[:8], not bad)]
 
 
+def h_shared_instance(ctx, kind, op_a, op_b):
+    """one MediaCipher object used by two threads (the library itself keeps one per download worker): thread A is pre-empted after k of its
+    lines inside mediacipher.py (solver's choice), thread B runs a whole operation with ANOTHER key on the same object, A resumes.
+    Both results must be what each operation yields when run alone"""
+    import sys
+    from checks import preempt
+    c = _mc(ctx)
+    alone = _mc(ctx)
+    LA = ctx.choice("LA", [0, 15, 16, 33])
+    LB = ctx.choice("LB", [1, 16])
+    pa, ka = H.blob(ctx, "PA", LA), H.blob(ctx, "KA", 32)
+    pb, kb = H.blob(ctx, "PB", LB), H.blob(ctx, "KB", 32)
+    k = ctx.choice("A_preempted_after_lines", list(range(0, 26)))
+    blob_a, blob_b = _enc(alone, kind, pa, ka), _enc(alone, kind, pb, kb)
+
+    def A(obj=c):
+        return _enc(obj, kind, pa, ka) if op_a == "encrypt" else _dec(obj, kind, blob_a, ka)
+
+    def B(obj=c):
+        return _enc(obj, kind, pb, kb) if op_b == "encrypt" else _dec(obj, kind, blob_b, kb)
+    want_a, want_b = A(alone), B(alone)
+    fname = sys.modules[type(c).__module__].__file__
+    r = preempt.run_preempted(A, B, fname, k)
+    obs = [("both operations return (stuck %s, errors %s)" % (r["stuck"], {i: repr(e)[:100] for i, e in r["errors"].items()}), not r["stuck"] and not r["errors"])]
+    if 1 in r["results"]:
+        obs.append(("the pre-empted operation yields what it yields alone", H.rope_eq(r["results"][1], want_a)))
+    if 2 in r["results"]:
+        obs.append(("the operation that ran in between yields what it yields alone", H.rope_eq(r["results"][2], want_b)))
+    return obs
+
+
 def finding_key(case, label, values, where):
     if values and values.get("L") is not None and values["L"] % 16 == 0 and not case.startswith("tamper"):
         return "C15|block-aligned plaintext is not padded"
@@ -204,4 +235,8 @@ def cases(tier):
         cs.append(dict(name="layout[%s,L<=%d]" % (k, big), fn=h_layout, args=(k, big), timeout_s=300))
         cs.append(dict(name="ref->lib[%s,L<=%d]" % (k, big), fn=h_ref_to_lib, args=(k, big), timeout_s=300))
         cs.append(dict(name="roundtrip[%s,L<=%d]" % (k, big), fn=h_roundtrip, args=(k, big), timeout_s=300))
+    for k in ("image",) if tier == "quick" else KINDS:
+        for oa in ("encrypt", "decrypt"):
+            for ob in ("encrypt", "decrypt"):
+                cs.append(dict(name="shared-instance[%s, %s pre-empted by %s]" % (k, oa, ob), fn=h_shared_instance, args=(k, oa, ob), keep_samples=30, timeout_s=300))
     return cs
